@@ -124,3 +124,25 @@ def reduce_prog(p, fails, max_tests=600):
                     body.insert(i, x)
                     i += 1
     return p
+
+
+def block_cosim(src, std="f2008", ignore_comments=True, process_directives=False, case=None):
+    """Run the Lean block model M-D on the recorded leaf oracle of the real parse of `src`
+    and compare (outcome, tree skeleton, query order, get/put sequence, scope operations).
+    -> (findings, info)"""
+    from fv import cosim_block as CB
+    from fv.model import get_model
+    try:
+        r = CB.check_source(get_model(), src, std=std, ignore_comments=ignore_comments,
+                            process_directives=process_directives, free_form=True, want_info=True)
+    except Exception as e:  # noqa: BLE001
+        return ([{"signature": "correspondence:Fp.Block", "no_input": True,
+                  "what": "block co-simulation failed: %s: %s" % (type(e).__name__, str(e)[:200]),
+                  "replay": {"case": case, "source": src, "std": std}}], {})
+    dis, info = r
+    out = []
+    if dis is not None:
+        out.append({"signature": "correspondence:Fp.Block", "no_input": True,
+                    "what": "block model and real parser differ at %s: %s" % (dis.get("step"), str(dis.get("what"))[:300]),
+                    "replay": {"case": case, "source": src, "std": std, "ignore_comments": ignore_comments}})
+    return out, info
